@@ -8,6 +8,7 @@ import (
 	"net"
 	"strconv"
 	"sync/atomic"
+	"time"
 
 	pp "github.com/pires/go-proxyproto"
 	"golang.org/x/time/rate"
@@ -160,6 +161,9 @@ func verif_SetRunningStatus(pw *Wrapper, remoteAddr string, respErr string) {
 		verif.Ensures(pw.Phase == phase0 && pw.Err == err0 && pw.RemoteAddr == addr0, "reply_outside_wait_start_changes_nothing")
 	} else if respErr != "" {
 		verif.Ensures(err != nil && !ran && pw.Phase == ProxyPhaseStartErr && pw.Err == respErr, "error_reply_leads_to_start_error")
+		// the retry is paced from now: the refusal is time-stamped, so the worker
+		// waits out the start-error interval before it asks again
+		verif.Ensures(verif.Called("time.Now") && pw.lastStartErr == verif.Ret[time.Time]("time.Now", 0), "refusal_is_time_stamped_for_the_retry_interval")
 	} else {
 		verif.Ensures(ran, "accepted_reply_runs_the_proxy")
 		if verif.RetErr(evRun, 0) == nil {
@@ -167,6 +171,7 @@ func verif_SetRunningStatus(pw *Wrapper, remoteAddr string, respErr string) {
 			verif.Ensures(!verif.Called(evHandler), "no_message_on_successful_start")
 		} else {
 			verif.Ensures(err != nil && pw.Phase == ProxyPhaseStartErr, "failed_local_start_leads_to_start_error")
+			verif.Ensures(verif.Called("time.Now") && pw.lastStartErr == verif.Ret[time.Time]("time.Now", 0), "failed_local_start_is_time_stamped_for_the_retry_interval")
 			verif.Ensures(verif.Called(evHandler) && verifIsClose(verif.NthArg[any](evHandler, 0, 0)), "failed_local_start_withdraws_the_registration")
 		}
 	}
@@ -347,10 +352,14 @@ func verif_StartProxy(pm *Manager, name string, remoteAddr string, serverRespErr
 func verifReloadDrop(pm *Manager, name string, pxy *Wrapper, cfgs map[string]v1.ProxyConfigurer) bool {
 	changed := !verif.Has(cfgs, name) || !verif.IterRet[bool]("reflect.DeepEqual", 0)
 	stopped := verif.CalledWithInIter("Wrapper).Stop", 0, pxy)
-	if changed {
-		return stopped && !verif.Has(pm.proxies, name)
+	if stopped {
+		return changed && !verif.Has(pm.proxies, name)
 	}
-	return !verif.CalledInIter("Wrapper).Stop") && verif.Has(pm.proxies, name) && pm.proxies[name] == pxy
+	// kept: only because the whole configuration of the entry - every
+	// type-specific field included - equals the whole new configuration
+	return !changed && verif.CalledInIter("reflect.DeepEqual") &&
+		verif.Same(verif.IterArg[any]("reflect.DeepEqual", 0), any(pxy.Cfg)) && verif.Same(verif.IterArg[any]("reflect.DeepEqual", 1), any(cfgs[name])) &&
+		!verif.CalledInIter("Wrapper).Stop") && verif.Has(pm.proxies, name) && pm.proxies[name] == pxy
 }
 
 // Reload, second loop (arbitrary configured entry): afterwards a wrapper is
